@@ -73,7 +73,7 @@ class Taper(om.ExplicitComponent):
             xp = np.array([-span / 2, 0.0, span / 2])
             fp = np.array([taper_ratio, 1.0, taper_ratio])
 
-        taper = np.interp(x.real, xp.real, fp.real)
+        taper = np.interp(x.real, xp.real, fp)
 
         # Modify the mesh based on the taper amount computed per spanwise section
         outputs["mesh"] = np.einsum("ijk,j->ijk", mesh - ref_axis, taper) + ref_axis
@@ -95,20 +95,17 @@ class Taper(om.ExplicitComponent):
         # interpolation problem
         if symmetry:
             xp = np.array([-span, 0.0])
-            fp = np.array([taper_ratio, 1.0])
+            dfp = np.array([1.0, 0.0])
 
         # Otherwise, we set up an interpolation problem for the entire wing, which
         # consists of two linear segments
         else:
             xp = np.array([-span / 2, 0.0, span / 2])
-            fp = np.array([taper_ratio, 1.0, taper_ratio])
+            dfp = np.array([1.0, 0.0, 1.0])
 
-        taper = np.interp(x, xp, fp)
-
-        if taper_ratio == 1.0:
-            dtaper = np.zeros(taper.shape)
-        else:
-            dtaper = (1.0 - taper) / (1.0 - taper_ratio)
+        # The interpolated taper is linear in taper_ratio, so its derivative is the
+        # interpolation of the derivative of the end values.
+        dtaper = np.interp(x, xp, dfp)
 
         partials["mesh", "taper"] = np.einsum("ijk, j->ijk", mesh - ref_axis, dtaper)
 
